@@ -1180,10 +1180,13 @@ class SymX:
         name = last.targets[0].id
         stores = [n for b in s.body for n in _walk_own(b) if isinstance(n, ast.Name) and n.id == name and isinstance(n.ctx, (ast.Store, ast.Del))]
         cur = pre.env.get(name)
-        if len(stores) != 1 or cur is None or cur[0] != "idx" or not is_const(cur[2], 0):
+        if len(stores) != 1 or cur is None:
             return out
-        if it == ("slice", cur[1], const(1), NONE_T, NONE_T):
+        if cur[0] == "idx" and is_const(cur[2], 0) and it == ("slice", cur[1], const(1), NONE_T, NONE_T):
             out[name] = cur[1]
+        elif it[0] != "box" and not any(x[0] in ("loopvar",) for x in subterms(cur)):
+            # `prev = first; for cur in seq: ...; prev = cur`: in iteration j, prev is element j of `[first] + seq`
+            out[name] = ("binop", "+", ("list", (cur,)), it)
         return out
 
     @staticmethod
